@@ -376,6 +376,47 @@ def check_registered(D: S.Dict, rec: Recorder, seed: int, n: int):
                     R.reset_caches()
 
 
+def check_usage_history(D: S.Dict, rec: Recorder, seed: int, n: int):
+    """The value of a decoded AVP depends on its bytes only, whatever other AVP objects were created and
+    modified before: histories of [build an empty Grouped AVP and extend its value in place | decode an
+    empty Grouped AVP and extend its value | decode a Grouped AVP and empty its value] followed by the
+    ordinary encode/decode checks on fresh specs."""
+    from diameter.message.avp import Avp
+
+    def body(t):
+        entry, child, specs, ops = t
+        code, vendor = entry[0], entry[1]
+        empty = {"code": code, "vendor": vendor, "m": None, "p": None, "v": _vs("Grouped", [])}
+        for op in ops:
+            try:
+                kid, _ = L.build_lib_avp(D, child)
+                if op == "new-append":
+                    g = Avp.new(code, vendor)
+                    g.value.append(kid)
+                elif op == "new-extend":
+                    g = Avp.new(code, vendor)
+                    g.value += [kid, kid]
+                elif op == "decoded-empty-append":
+                    g = Avp.from_bytes(S.ref_encode(D, empty))
+                    g.value.append(kid)
+                elif op == "decoded-clear" and specs:
+                    g = Avp.from_bytes(S.ref_encode(D, specs[0]))
+                    g.value.clear()
+            except R.RefError:
+                continue
+            except Exception as e:
+                rec.violation(f"C01/usage-history/{op}/{type(e).__name__}", {"entry": [code, vendor], "op": op}, repr(e))
+            rec.cls(f"usage:{op}")
+            check_spec(D, empty, rec, origin="after-usage")
+            for a in specs:
+                check_spec(D, a, rec, origin="after-usage")
+    strat = st.sampled_from(D.grouped).flatmap(lambda e: st.tuples(
+        st.just(e), S.avp_spec(D, depth=6, max_depth=6, max_octets=16),
+        st.lists(S.avp_spec(D, depth=0, max_depth=3, max_octets=16, entry=e), max_size=2),
+        st.lists(st.sampled_from(["new-append", "new-extend", "decoded-empty-append", "decoded-clear"]), min_size=1, max_size=3)))
+    hyp.run_given(strat, body, n, derive_seed(PID, "usage", seed), rec=rec)
+
+
 # --------------------------------------------------------------------------
 # shards
 # --------------------------------------------------------------------------
@@ -423,6 +464,8 @@ def shard_main(shard, nshards, tier, scale):
         check_ood(D, rec, True)
     if shard == 1 % nshards:
         check_registered(D, rec, 0, int((40 if thorough else 6) * scale) or 1)
+    # last: these histories modify AVP objects in place, later checks in this process would inherit any damage
+    check_usage_history(D, rec, shard, int((1500 if thorough else 120) * scale) or 10)
     return rec.dump()
 
 
@@ -435,7 +478,7 @@ def run(tier, scale=1.0):
     total_entries = len(D.entries)
     rec.extra["dictionary_entries"] = total_entries
     required = {f"type:{t}": 1 for t in D.by_type} | {f"len%4:{i}": 1 for i in range(4)} | {
-        "origin:registered": 1, "register:after-first-decode": 1, "register:overwrite": 1, "wire:unknown": 1, "wire:vendor-shadow": 1, "time:era1": 1, "time:era0": 1,
+        "origin:registered": 1, "origin:after-usage": 1, "usage:new-append": 1, "usage:decoded-empty-append": 1, "register:after-first-decode": 1, "register:overwrite": 1, "wire:unknown": 1, "wire:vendor-shadow": 1, "time:era1": 1, "time:era0": 1,
         "time:era0-last-hour": 1, "depth:6": 1}
     return finish(rec, tier=tier, level="exploration", rule=RULE, assumptions=ASSUME, t0=t0,
                   exhaustive=False, required_classes=required,
